@@ -88,6 +88,8 @@ def upper_bound(fb, m, t, atoms, depth=0):
             for (op, x, y) in ((a[1], a[2], a[3]), (_flip(a[1]), a[3], a[2])):
                 if _strip(x) == _strip(t):
                     c = const_eval(fb, m.sym, y)
+                    if c is None and depth < 3 and op in ("Le", "Lt", "Eq"):
+                        c = upper_bound(fb, m, y, [z for z in atoms if z is not a], depth + 1)
                     if c is None:
                         continue
                     if op == "Le" or op == "Eq":
